@@ -39,7 +39,7 @@ class Witness:
         return result
 
     def has_annex(self):
-        return len(self.items) and self.items[-1][0] == 0x50
+        return len(self.items) >= 2 and self.items[-1][:1] == b"\x50"
 
     def control_block(self):
         if self.has_annex():
